@@ -165,6 +165,30 @@ def gen_long(rng, tier):
     yield ("full-directory", full2)
 
 
+def gen_interrupted(rng, tier):
+    """what an interrupted remove / rename leaves (slots are marked 0xE5 head first) and what a re-used hole can hold: a complete
+    n-slot run whose first k slots carry 0xE5 in byte 0 (the deletion mark READS like order 5 + last-flag), k = 1..n, for every
+    n = 1..20; the same with the deleted head replaced by a deleted slot of another name with the same checksum byte; deleted
+    slots between the live ones"""
+    for n in range(1, 21):
+        name = (b"N%02dSLOTS" % n)[:8].ljust(8) + b"BIN"
+        ck = cks(name)
+        units = [0x61 + (i % 26) for i in range(13 * n - (n % 3))]
+        run = good_run(units, name)
+        short = sfn(name)
+        for k in range(1, n + 1):
+            dead = [b"\xe5" + x[1:] for x in run[:k]]
+            yield ("interrupted-remove", dead + run[k:] + [short, sfn(b"AFTER      ")])
+        foreign = b"\xe5" + lfn(0x41, [0x46, 0x4f, 0x52, 0x45, 0x49, 0x47, 0x4e, 0x2d, 0x54, 0x41, 0x49, 0x4c, 0x21], ck)[1:]
+        yield ("interrupted-remove", [foreign] + run[1:] + [short])
+        yield ("interrupted-remove", [foreign, foreign] + run[1:] + [short])
+        if n >= 3:
+            yield ("interrupted-remove", run[:1] + [b"\xe5" + run[1][1:]] + run[2:] + [short])
+            yield ("interrupted-remove", run[:2] + [DEL_SFN] + run[2:] + [short])
+        # the short entry deleted, the run alive, another short entry with the same checksum behind it
+        yield ("interrupted-remove", run + [b"\xe5" + short[1:], short])
+
+
 def gen_content(rng, tier):
     """unpaired surrogates, 0x05 lead byte, lowercase flags, illegal characters, out-of-range dates/times."""
     name = b"CONTENT TXT"
@@ -328,7 +352,7 @@ def norm_model(line, variant):
 def run(rep, tier, seed):
     rng = vlib.Rng(seed)
     cases = []
-    for g in (gen_patterns, gen_single_bytes, gen_long, gen_content, gen_soup):
+    for g in (gen_patterns, gen_single_bytes, gen_long, gen_interrupted, gen_content, gen_soup):
         cases += list(g(rng, tier))
     dist = {}
     for tag, _ in cases:
@@ -360,7 +384,7 @@ def run(rep, tier, seed):
     stats = {"entries_listed": 0, "with_long_name": 0, "fallback_to_short": 0, "max_units": 0}
     for vi, (vtag, setup) in enumerate(vols):
         # the fixed root sees every case; the chain-backed directories a deterministic subset in the quick tier
-        idx = list(range(len(cases))) if (vi == 0 or tier != "quick") else [i for i in range(len(cases)) if i % 2 == vi - 1 or cases[i][0] in ("long-run", "full-directory", "long-run-after-orphan")]
+        idx = list(range(len(cases))) if (vi == 0 or tier != "quick") else [i for i in range(len(cases)) if i % 2 == vi - 1 or cases[i][0] in ("long-run", "full-directory", "long-run-after-orphan", "interrupted-remove")]
         sub = [cases[i] for i in idx]
         for variant in VARIANTS:
             prep = prepare(vtag, setup, variant)
